@@ -23,6 +23,8 @@ def VE(k): TRACE.append(k); return 'x%d\\ny' % k
 def VO(k): TRACE.append(k); return O(k)
 def VR(k): TRACE.append(k); return BadRepr()
 def PV(k): TRACE.append(k); print('p%d' % k); return k * 11
+async def AV(k): TRACE.append(k); return k * 11
+async def APV(k): TRACE.append(k); print('p%d' % k); return k * 11
 def PX(k): TRACE.append(k); print('p%d' % k); raise ValueError('e%d' % k)
 def PVS(k, s): TRACE.append(k); print('p%d' % k); return k * 11
 def PW(k):
@@ -31,7 +33,7 @@ def PW(k):
 '''
 
 # kind -> (source lines, stdout, repr of value or None, is expression statement, trace items)
-KINDS = ['P', 'A', 'V', 'PP', 'VS', 'VE', 'VO', 'VN', 'PV', 'N', 'VR', 'S', 'X', 'W', 'I', 'PVC', 'PVQ']
+KINDS = ['P', 'A', 'V', 'PP', 'VS', 'VE', 'VO', 'VN', 'PV', 'N', 'VR', 'S', 'X', 'W', 'I', 'PVC', 'PVQ', 'AV', 'APV']
 
 
 def kind_info(kd, k):
@@ -53,6 +55,11 @@ def kind_info(kd, k):
         return ['>>> T(%d)' % k], '', None, True, [k]
     if kd == 'PV':
         return ['>>> PV(%d)' % k], 'p%d\n' % k, repr(k * 11), True, [k]
+    if kd == 'AV':
+        # top-level await of a coroutine that returns a value (no output)
+        return ['>>> await AV(%d)' % k], '', repr(k * 11), True, [k]
+    if kd == 'APV':
+        return ['>>> await APV(%d)' % k], 'p%d\n' % k, repr(k * 11), True, [k]
     if kd == 'PVC':
         # like PV, with a ';' in a trailing comment (not a statement separator)
         return ['>>> PV(%d)  # prints; returns a value' % k], 'p%d\n' % k, repr(k * 11), True, [k]
@@ -77,9 +84,9 @@ def kind_info(kd, k):
     raise KeyError(kd)
 
 
-OUTLINES = {'P': 1, 'PP': 2, 'PV': 1, 'X': 1, 'I': 1, 'PVC': 1, 'PVQ': 1}
-HASVAL = {'V', 'VS', 'VE', 'VO', 'PV', 'PVC', 'PVQ'}
-EXPRS = {'P', 'V', 'VS', 'VE', 'VO', 'VN', 'PV', 'PVC', 'PVQ'}
+OUTLINES = {'P': 1, 'PP': 2, 'PV': 1, 'X': 1, 'I': 1, 'PVC': 1, 'PVQ': 1, 'APV': 1}
+HASVAL = {'V', 'VS', 'VE', 'VO', 'PV', 'PVC', 'PVQ', 'AV', 'APV'}
+EXPRS = {'P', 'V', 'VS', 'VE', 'VO', 'VN', 'PV', 'PVC', 'PVQ', 'AV', 'APV'}
 NOCODE = {'N', 'S'}
 GOOD = ['ALL', 'LAST', 'REPR']
 CORRUPT = ['c_repl', 'c_app', 'c_pre', 'c_drop', 'c_stale', 'c_stalev', 'c_stalex', 'c_blank']
@@ -103,7 +110,7 @@ class WantSpec(Spec):
         self.max_len = max_len
         self.max_cost = max_cost
         self.min_len = min_len
-        self.rule = ('history = <=%d events (17 statement kinds (incl. print-then-raise with its traceback want, write-without-newline, wrong-but-ignored want) x {no want, ALL, LAST, REPR, 8 corruptions} x '
+        self.rule = ('history = <=%d events (19 statement kinds (incl. top-level await of a coroutine returning a value) (incl. print-then-raise with its traceback want, write-without-newline, wrong-but-ignored want) x {no want, ALL, LAST, REPR, 8 corruptions} x '
                      '{no separator, blank line}), at most one corrupted want per doctest, cost <= %d; '
                      'non-trivial = doctest with at least one want' % (max_len, max_cost))
 
